@@ -50,6 +50,11 @@ func init() {
 
 type lgBehKey struct{}
 
+// lgBuf collects what the default log handler writes
+type lgBuf struct{ b []byte }
+
+func (w *lgBuf) Write(p []byte) (int, error) { w.b = append(w.b, p...); return len(p), nil }
+
 // lgCapture is the slog.Handler given to LoggerWithHandler.
 type lgCapture struct {
 	records []string // rendered records
@@ -178,8 +183,11 @@ func lgRouter(withLogger bool, cap *lgCapture, trace *[]string, gres, rres strin
 			}
 		}))
 	}
-	if withLogger {
+	if withLogger && cap != nil {
 		opts = append(opts, fox.WithMiddlewareFor(fox.AllHandlers, fox.LoggerWithHandler(cap)))
+	} else if withLogger {
+		// the default constructor (the package's pretty handler; its output is captured through a hook)
+		opts = append(opts, fox.WithMiddlewareFor(fox.AllHandlers, fox.Logger()))
 	}
 	marker := func(next fox.HandlerFunc) fox.HandlerFunc {
 		return func(c fox.Context) {
@@ -291,6 +299,15 @@ func runLogger(fields []string) string {
 	if err != nil {
 		return "I=bad-router:" + err.Error()
 	}
+	// a third router with the middleware built by fox.Logger(): it must report the same requests, at the same levels
+	var trace3 []string
+	var dout, derr lgBuf
+	restore := fox.VerifSwapDefaultLogOutput(&dout, &derr)
+	defer restore()
+	withD, err := lgRouter(true, nil, &trace3, gres, rres, cust, wrap)
+	if err != nil {
+		return "I=bad-router:" + err.Error()
+	}
 	var is, js, oracle []string
 	for _, it := range strings.Split(fields[1], ";") {
 		if it == "" {
@@ -316,6 +333,17 @@ func runLogger(fields []string) string {
 		if n >= 1 {
 			parts := strings.SplitN(cap.records[n-1], "\x00", 2)
 			rec, keys = parts[0], parts[1]
+		}
+		// the same request through the router whose Logger came from fox.Logger()
+		dout.b, derr.b, trace3 = dout.b[:0], derr.b[:0], trace3[:0]
+		_ = lgServe(withD, &trace3, item)
+		lines := strings.Count(string(dout.b), "\n") + strings.Count(string(derr.b), "\n")
+		if lines != n {
+			oracle = append(oracle, fmt.Sprintf("item %s: the Logger built by fox.Logger() emitted %d records, the one built by LoggerWithHandler %d", it, lines, n))
+		} else if n >= 1 {
+			if lv := strings.SplitN(rec, ":", 2)[0]; !strings.Contains(string(dout.b)+string(derr.b), lv) {
+				oracle = append(oracle, fmt.Sprintf("item %s: the record of fox.Logger() does not carry the level %s: %q", it, lv, string(dout.b)+string(derr.b)))
+			}
 		}
 		is = append(is, itoa(n)+":"+rec+":"+keys+":"+strings.Join(trace, ".")+":"+pan)
 		// the property fixes the level for 2xx-5xx only: for any other reported status the level is not compared
